@@ -236,6 +236,33 @@ pub fn run_case(c: &Case) -> Result<&'static str, (String, String)> {
     if d.flags.bits() | 0x0400 != word | 0x0400 {
         return Err(("flags".into(), format!("reported {:#06x}, reply bytes say {:#06x}", d.flags.bits(), word)));
     }
+    // the NAMED flags, anchored to the bit positions of the standard (status byte 1 = low byte, status
+    // byte 2 = high byte of the word): a flag is reported exactly when its bit is set in the reply
+    {
+        use profirust::dp::DiagnosticFlags as F;
+        const NAMED: [(&str, u16); 11] = [
+            ("STATION_NOT_READY", 0x0002),
+            ("CONFIGURATION_FAULT", 0x0004),
+            ("EXT_DIAG", 0x0008),
+            ("NOT_SUPPORTED", 0x0010),
+            ("PARAMETER_FAULT", 0x0040),
+            ("PARAMETER_REQUIRED", 0x0100),
+            ("STATUS_DIAGNOSTICS", 0x0200),
+            ("PERMANENT_BIT", 0x0400),
+            ("WATCHDOG_ON", 0x0800),
+            ("FREEZE_MODE", 0x1000),
+            ("SYNC_MODE", 0x2000),
+        ];
+        let named: [F; 11] = [F::STATION_NOT_READY, F::CONFIGURATION_FAULT, F::EXT_DIAG, F::NOT_SUPPORTED, F::PARAMETER_FAULT, F::PARAMETER_REQUIRED, F::STATUS_DIAGNOSTICS, F::PERMANENT_BIT, F::WATCHDOG_ON, F::FREEZE_MODE, F::SYNC_MODE];
+        for ((name, bit), f) in NAMED.iter().zip(named.iter()) {
+            if *bit == 0x0400 {
+                continue;
+            }
+            if d.flags.contains(*f) != (word & bit != 0) {
+                return Err(("named_flag".into(), format!("{name} reported {} but bit {bit:#06x} of the reply word {word:#06x} says {}", d.flags.contains(*f), word & bit != 0)));
+            }
+        }
+    }
     if d.ident_number != u16::from_be_bytes([c.pdu[4], c.pdu[5]]) {
         return Err(("ident".into(), format!("reported {:#06x}, reply bytes {:02x} {:02x}", d.ident_number, c.pdu[4], c.pdu[5])));
     }
